@@ -576,6 +576,12 @@ def gen_dists(rng, max_time, p_none=0.4):
     if rng.random() < p_none:
         return {}
     ds = {}
+    if rng.random() < 0.25:            # every T-stage parametric with the SAME family: equal keyword names across T-stages
+        fam = rng.choice([0, 0, 1])
+        for t in rng.sample(gen.TSTAGES, len(gen.TSTAGES)):
+            ds[t] = ({"fam": 0, "kw": {"p": gen.gen_value(rng)}} if fam == 0 else
+                     {"fam": 1, "kw": {"a": rng.randint(0, 8) / 4.0, "b": rng.randint(1, 8) / 4.0}})
+        return ds
     for t in rng.sample(gen.TSTAGES, rng.choice([1, 2, 2])):
         r = rng.random()
         if r < 0.3:
@@ -632,7 +638,10 @@ def gen_call(rng, case, kind):
         chosen = rng.sample(sorted(set(globs)), rng.randint(1, min(2, len(set(globs)))))
         glob = {gname: valid_value(rng, "x_" + gname) for gname in chosen}
         kw = dict(glob)
-        cand = [nm for nm in gn if nm.split("_")[-1] in glob and nm != "midext_prob"]
+        if rng.random() < 0.5:      # specific names of the globally named kinds (the specific one must win) ...
+            cand = [nm for nm in gn if nm.split("_")[-1] in glob and nm != "midext_prob"]
+        else:                       # ... or of any kind (an arc's 'micro' named specifically while its 'spread' comes from the global)
+            cand = [nm for nm in gn if nm != "midext_prob"]
         for nm in rng.sample(cand, min(len(cand), rng.randint(0, 2))):
             kw[nm] = valid_value(rng, nm)
         items = list(kw.items())
@@ -901,7 +910,7 @@ def run(ctx: Ctx, a_ok: bool):
                 "malformed values, sub-setters); values from {0,1} U k/16 U short dyadics; non-trivial iff some value "
                 "lies strictly inside (0,1) and the graph has >= 2 arcs")
     rng = ctx.rng
-    n = 320 if ctx.tier == "quick" else 3000
+    n = 640 if ctx.tier == "quick" else 3000
     cases = []
     cfgs = all_configs()
     for i in range(n):
